@@ -1,5 +1,5 @@
 """C11 - realign output is exactly-once and in input order under every schedule."""
-from props.realign_common import apalache_counting_proof, explore_config, real_mp_tier
+from props.realign_common import RN, apalache_counting_proof, explore_config, real_mp_tier
 
 
 def run(ctx):
@@ -13,6 +13,8 @@ def run(ctx):
             (dict(R=3, B=1, C=2, Cap=2, F=0, kinds=[]), 200, 300),
             (dict(R=4, B=2, C=2, Cap=1, F=0, kinds=[]), 200, 300),
             (dict(R=5, B=2, C=2, Cap=2, F=0, kinds=[]), 300, 300),
+            (dict(R=3, B=2, C=2, Cap=2, F=0, kinds=[]), 200, 300),
+            (dict(R=5, B=2, C=3, Cap=2, F=0, kinds=[]), 200, 300),
             (dict(R=3, B=1, C=3, Cap=2, F=0, kinds=[]), 300, 300),
             (dict(R=2, B=1, C=1, Cap=1, F=0, kinds=[]), 20, 50),
         ]
@@ -20,6 +22,7 @@ def run(ctx):
         cfgs = [
             (dict(R=3, B=1, C=2, Cap=2, F=0, kinds=[]), 60, 150),
             (dict(R=4, B=2, C=2, Cap=2, F=0, kinds=[]), 60, 150),      # two records per worker: >= 3 results in one group
+            (dict(R=3, B=2, C=2, Cap=2, F=0, kinds=[]), 60, 150),      # a pending full batch and a shorter remainder in one group
             (dict(R=2, B=1, C=1, Cap=1, F=0, kinds=[]), 5, 20),
         ]
     for k, nw, ns in cfgs:
@@ -35,7 +38,7 @@ def run(ctx):
             ctx.violation("realmp_hang", real[-1])
         elif rc != 0:
             ctx.violation("realmp_fails_without_fault", real[-1])
-        elif names != [f"r{i}" for i in range(1, R + 1)]:
+        elif names != [RN(i) for i in range(1, R + 1)]:
             ctx.violation("realmp_output_not_exactly_once_in_order", real[-1])
         ctx.nontrivial.add(("realmp", R, B, C, delay))
     ctx.notes["real_multiprocessing_runs"] = real
